@@ -10,6 +10,14 @@ BASELINE = json.load(open('/root/.vp/BASELINE.json'))['cmd'].replace('--junitxml
 
 # id -> (category, technique, text, note, design_ref)
 TABLE = {
+ 'C01': ('exploration',
+         'bounded exhaustive enumeration of input structure (all set partitions of observations into conditions, namings, containers, dtypes, row orders, list / movie structures) on the real calc_rdm / calc_rdm_movie, judged per unordered label pair by a reference model',
+         'Every assignment of <= 5 (thorough 6) observations to condition labels x label namings x list/ndarray descriptors x int/float data x extra descriptors x row permutations x 16 method configurations (euclidean, correlation, mahalanobis with 4 precisions, poisson with 2 priors; remove_mean on/off) is run through the real calc_rdm as single dataset, one-element list and lists of two datasets (equal / overlapping / disjoint condition sets, with and without descriptor), and through calc_rdm_movie for every partition of the time points into bins; each value is looked up by its returned labels and compared with the formula on per-label means; dataset descriptors must sit on the right RDM, pattern descriptors on the right condition.',
+         'reference formulas in mc/ref/c01_ref.py (no numpy); values from small-integer alphabets and fixed fills', '4/C01'),
+ 'C13': ('exploration',
+         'bounded exhaustive enumeration of missing-entry masks (all masks leaving >= 3 of 6 entries, common / differing between stacks / within a stack, bootstrap- and from_partials-induced) on the real compare / pool / fit / mean / rescale code, judged by reference on entry-deleted vectors',
+         'For n_cond=4 (thorough also 5) every NaN mask is applied (i) commonly - every (i,j) of compare() for 12 method/sigma_k combinations, pool_rdm, noise ceilings and fit_regress must equal the reference on the entry-deleted vectors (V rows/columns deleted); (ii) differently between the stacks and (iii) within a stack - every ordered mask pair must be rejected with an error; all 232 bootstrap index vectors with a repeat and all coverings of 4 conditions by 2-3 subsets through from_partials; RDMs.mean with 6 weight forms on all 64x64 mask pairs; rescale (3 methods) keeps NaN pattern, multiplies by one positive constant and brings proportional partial RDMs to a common scale.',
+         'reference in mc/ref/c13_ref.py and mc/ref/measures.py; whitened paths through the library CG solve judged with 1e-4; rescale run with threshold=1e-24', '4/C13'),
  'C03': ('exploration',
          'bounded exhaustive enumeration of input structure (all vector pairs over a value alphabet, all sigma_k forms, stack shapes, condition permutations) on the real compare(), judged by a reference model',
          'Every pair of RDM vectors over {0,1,2}^3, {0,1}^6 ({0,1,2}^6 thorough) and {-1,0,1,2}^3 - i.e. every tie/zero/sign pattern - is run through the real compare() in batched stacks for every measure and every sigma_k form and each (i,j) entry is compared with an independent definition; algebraic laws (symmetry, self-similarity, range, invariance under all n! condition permutations, ndarray==RDMs, vector==diagonal sigma_k) are checked on generic fills. Exhaustive over structure within the bounds, finite alphabet over values.',
